@@ -49,7 +49,7 @@ CONFORMABLE = {"tvd1", "Mdiff", "Mconv", "Mup", "Mupalt", "ghost", "Mbc", "Rbc",
 
 
 SOLVE_CLAUSES = {"C04_Solves", "C04_SameObject", "C04_SameAsMatrixPDE", "C04_ExternalSolver", "C04_Variants",
-                 "C04_Linear", "C04_Assembly", "C12_Residual", "C12_History", "C12_HistoryPeriodic", "C12_Retry", "C12_Limits", "C12_FixedPoint", "C12_ExplicitStep",
+                 "C04_Linear", "C04_Assembly", "C12_Residual", "C12_History", "C12_HistoryPeriodic", "C12_HistoryAlpha", "C12_Retry", "C12_Limits", "C12_FixedPoint", "C12_ExplicitStep",
                  "C12_ExplicitBCs", "C12_InputUntouched", "C12_ExplicitUsable", "C03_SolvedRobin"}
 for _c in SOLVE_CLAUSES:
     NEEDS[_c] = []
@@ -64,7 +64,7 @@ UNKNOWN_SCOPE = {
     "C04_Linear": ["r_solve", "r_solve2", "r_sum"],
     "C04_Assembly": ["Mhand", "Rhand", "Mbc", "Rbc", "Aspatial", "gamma"],
     "C12_Residual": ["Aspatial", "gamma", "r_solve"], "C12_History": ["r_history"],
-    "C12_HistoryPeriodic": ["r_history_per"], "C12_Retry": ["flags", "r_retry"], "C12_Limits": ["limits"], "C12_FixedPoint": ["r_fixed"],
+    "C12_HistoryPeriodic": ["r_history_per"], "C12_HistoryAlpha": ["r_history_alpha"], "C12_Retry": ["flags", "r_retry"], "C12_Limits": ["limits"], "C12_FixedPoint": ["r_fixed"],
     "C12_ExplicitStep": ["dt_explicit", "in_explicit", "rhs_explicit", "r_explicit"],
     "C12_ExplicitBCs": ["r_explicit"], "C12_InputUntouched": ["flags"],
     "C12_ExplicitUsable": ["flags", "r_after_explicit"], "C03_SolvedRobin": ["r_solve"],
@@ -90,7 +90,7 @@ for _o in ("Mdiff", "Mconv", "Mup", "Mupalt", "Msrc", "Rsrc", "Mbc", "Rbc", "gho
 # 1e-6 relative, beyond what rounding can do at the admitted condition numbers); a near miss stays undecided
 TARGETED = {
     "C04_Solves": ["r_solve"], "C04_Variants": ["r_variants"], "C12_History": ["r_history"],
-    "C12_HistoryPeriodic": ["r_history_per"], "C12_Retry": ["r_retry"], "C12_FixedPoint": ["r_fixed"],
+    "C12_HistoryPeriodic": ["r_history_per"], "C12_HistoryAlpha": ["r_history_alpha"], "C12_Retry": ["r_retry"], "C12_FixedPoint": ["r_fixed"],
     "C12_ExplicitUsable": ["r_after_explicit"], "C04_ExternalSolver": ["r_ext"],
     "C06_Steady": ["steady"],
     # later integrals are compared with the first one, the integral of the small-rational initial data (always
@@ -113,6 +113,8 @@ def make_episodes(configs, clauses_for, extra_conform=(), observe=None):
             wanted = [w for w in wanted if w != "C12_FixedPoint"]
         if "r_history_per" not in obs:
             wanted = [w for w in wanted if w != "C12_HistoryPeriodic"]
+        if "r_history_alpha" not in obs:
+            wanted = [w for w in wanted if w != "C12_HistoryAlpha"]
         if obs.get("solve_skipped"):
             wanted = [w for w in wanted if w not in ("C17_solution", "C08_Solve")]
         conform = sorted((set(want) | set(extra_conform)) & CONFORMABLE & set(obs))
